@@ -6,7 +6,7 @@ def run(tier, seed, update_ledger=False, only=None, jobs=None):
     hs = [h for h in coupling_harnesses({"C07"}, tier) if not only or only in h.hid]
     return run_check("C07", hs, tier=tier, seed=seed, update_ledger=update_ledger, jobs=jobs,
                      unbounded_in=["all input values", "all conditioner functions (uninterpreted, per item)", "context values"],
-                     bounded_in={"masks": "every non-trivial 0/1 pattern for D<=3 (Affine, PwRQTails) or a first/last pattern (other classes) in quick; all for D<=4 in thorough; plus numeric masks",
+                     bounded_in={"masks": "every non-trivial 0/1 pattern for D<=3 (Affine, PwRQTails) or a first/last pattern (other classes) in quick; all patterns for D<=3 for every class in thorough; plus numeric masks",
                                  "shapes": "[2,D] and [2,D,1,2]"},
                      assumptions=["the conditioner is a per-item function of what it is shown and returns a fresh tensor (stub StubNet); the library's own networks are checked for this in C12/C13",
                                   "piecewise couplings see the spline functions through their contracts (monotone elementwise maps with exp(ld) = derivative), proved on the bodies in C01/C02/C09",
